@@ -34,6 +34,33 @@ SET_RELS = [("M", "sections", "S"), ("M", "symbols", "Y"),
 NAMES = ["", "a", "b", "main"]
 # how a batch of values is handed to a collection method: re-iterable
 # containers and one-shot iterators (a fresh one is made per call)
+def jx(i):
+    """JSON-able form of an index argument for the operation log."""
+    return i if type(i) is int else repr(i)
+
+
+class IndexLike:
+    """An index only through __index__ (as numpy integers are)."""
+
+    def __init__(self, i):
+        self.i = i
+
+    def __index__(self):
+        return self.i
+
+    def __repr__(self):
+        return "IndexLike(%d)" % self.i
+
+
+HOSTILE_INDEXES = [
+    lambda i: 2 ** 63, lambda i: -2 ** 63 - 1, lambda i: 2 ** 64,
+    lambda i: -2 ** 64, lambda i: 10 ** 30, lambda i: 2 ** 63 - 1,
+    lambda i: -2 ** 63, lambda i: str(i), lambda i: None,
+    lambda i: float(i), lambda i: bool(i % 2), lambda i: IndexLike(i),
+    lambda i: IndexLike(2 ** 64),
+]
+
+
 ARG_KINDS = [("list", list), ("tuple", tuple), ("iter", iter),
              ("generator", lambda xs: (x for x in xs)),
              ("reversed", lambda xs: reversed(xs[::-1])),
@@ -547,7 +574,22 @@ class World:
             x = rnd.choice(pool)
             return x
 
+        hostile = []
+
         def rand_index():
+            if rnd.random() < 0.12:
+                # indexes the built-in list treats specially: beyond
+                # ssize_t, not an index at all, or an index only through
+                # __index__ (bool, index-like objects)
+                i = rnd.choice(HOSTILE_INDEXES)(rnd.randint(-n - 1, n + 1))
+                if not (isinstance(i, int) and -2 ** 63 <= i < 2 ** 63):
+                    # which exception a non-index or an index beyond
+                    # ssize_t earns is CPython's business, not C16's: such
+                    # a call is judged by the weak rule below (a failed
+                    # operation changes nothing; a successful one equals
+                    # the built-in's)
+                    hostile.append(i)
+                return i
             return rnd.randint(-n - 2, n + 2)
 
         def rand_slice():
@@ -566,7 +608,7 @@ class World:
             fn = lambda T: T.append(self.obj[x])
         elif op == "insert":
             x, i = pick_mod(), rand_index()
-            incoming, args = [x], {"i": i}
+            incoming, args = [x], {"i": jx(i)}
             fn = lambda T: T.insert(i, self.obj[x])
         elif op in ("extend", "iadd"):
             xs = [pick_mod() for _ in range(rnd.randint(0, 3))]
@@ -591,7 +633,7 @@ class World:
                     T += wrap[1]([self.obj[x] for x in xs])
         elif op == "delitem":
             i = rand_index()
-            args = {"i": i}
+            args = {"i": jx(i)}
             fn = lambda T: T.__delitem__(i)
         elif op == "delslice":
             s = rand_slice()
@@ -599,7 +641,7 @@ class World:
             fn = lambda T: T.__delitem__(s)
         elif op == "setitem":
             x, i = pick_mod(), rand_index()
-            incoming, args = [x], {"i": i}
+            incoming, args = [x], {"i": jx(i)}
             fn = lambda T: T.__setitem__(i, self.obj[x])
         elif op == "setslice":
             s = rand_slice()
@@ -616,7 +658,7 @@ class World:
             fn = lambda T: T.pop()
         elif op == "pop_i":
             i = rand_index()
-            args = {"i": i}
+            args = {"i": jx(i)}
             fn = lambda T: T.pop(i)
         elif op == "remove":
             x = pick_mod()
@@ -631,7 +673,7 @@ class World:
             args = {"x": x}
             if rnd.random() < 0.5:
                 a, b = rand_index(), rand_index()
-                args.update(start=a, stop=b)
+                args.update(start=jx(a), stop=jx(b))
                 fn = lambda T: T.index(self.obj[x], a, b)
             else:
                 fn = lambda T: T.index(self.obj[x])
@@ -645,7 +687,7 @@ class World:
             fn = lambda T: list(T[s])
         elif op == "getitem":
             i = rand_index()
-            args = {"i": i}
+            args = {"i": jx(i)}
             fn = lambda T: T[i]
         elif op == "contains":
             x = pick_mod()
@@ -687,6 +729,25 @@ class World:
             got_exc = e
         tag = "list.%s:%s" % (op, klass)
         self.ctx.count("c16:list_ops:" + klass)
+        if hostile:
+            tag = "list.%s:unusable-index:%s" % (op, klass)
+            self.ctx.count("c16:list_ops_unusable_index")
+            if got_exc is not None:
+                # whatever the type: nothing may have changed (the world
+                # check that follows every operation decides the rest)
+                self.ctx.count("c16:list_ops_unusable_index_raising")
+                actual = [self.of(x) for x in L]
+                if actual != cur:
+                    self.fail("C16", "%s:failed-but-changed" % tag,
+                              "%s raised %s but left %s (was %s)" % (
+                                  tag, type(got_exc).__name__, actual, cur))
+                return tag + ":raises"
+            if want_exc is not None:
+                if mutating:
+                    self.fail("C16", "%s:succeeds-where-list-raises" % tag,
+                              "%s: built-in list raises %s, ir.modules "
+                              "succeeds" % (tag, type(want_exc).__name__))
+                return tag + ":lenient"
         if (want_exc is None) != (got_exc is None) or (
                 want_exc is not None and
                 type(got_exc) is not type(want_exc)):
